@@ -18,7 +18,8 @@ matrix is written down from the published definition:
     L_tip(x) = [x compatible with the observed symbol];   lnL = sum over sites log L(site)
 
 A parameter name is read as a substitution class: "A/C" undirected, "A>C" directed, "a | b" union, and the
-classic aliases kappa / kappa_y / kappa_r / omega / CpG (a CG dinucleotide is created or destroyed).
+classic aliases kappa / kappa_y / kappa_r / omega / CpG (a CG dinucleotide is created or destroyed);
+"a & b" is the intersection.
 """
 from __future__ import annotations
 
@@ -227,13 +228,24 @@ def _cpg(x, y, p):
     return any((x[o:o + 2] == "CG" or y[o:o + 2] == "CG") and p in (o, o + 1) for o in range(len(x) - 1))
 
 
+def _cpg_one_window(x, y, p):
+    """narrow reading of 'to or from CpG': exactly one CG window of the word pair covers the changed position
+    (CCG <-> CGG destroys one CG and creates another: two windows, not counted)"""
+    return sum((x[o:o + 2] == "CG" or y[o:o + 2] == "CG") and p in (o, o + 1) for o in range(len(x) - 1)) == 1
+
+
 def rate_class(name):
     """parameter name -> predicate (from word x, to word y, changed position p), or the string 'omega'"""
     nm = name.strip()
     if nm == "omega":
         return "omega"
+    if "&" in nm:
+        parts = [rate_class(q) for q in nm.split("&")]
+        return lambda x, y, p: all(q(x, y, p) for q in parts)
     if nm == "CpG":
         return _cpg
+    if nm == "CpG-one-window":
+        return _cpg_one_window
     if nm == "kappa":
         return _on_changed_letter(_is_transition)
     if nm == "kappa_y":
